@@ -151,6 +151,21 @@ def create_number(rep):
     #       the corresponding formula should evaluate to false
     raise RuntimeError("number expected: {}".format(rep))
 
+def create_offset(rep):
+    """
+    Returns the (non-negative) number of steps of an n-fold next or previous
+    operator.
+
+    Throws an error if rep does not evaluate to a non-negative number.
+
+    Arguments:
+    rep -- Theory term to translate.
+    """
+    num = create_number(rep)
+    if num < 0:
+        raise RuntimeError("number expected: {}".format(rep))
+    return num
+
 def create_symbol(rep):
     """
     Returns the symbolic representation of the given theory term.
